@@ -1,6 +1,71 @@
-(* Runner for property C06: wire arguments -> model -> wire result. Filled in by the C06 model. *)
+(* Runner for property C06: wire arguments -> Num/Codec.v -> wire result. Same operation names
+   as harness/c06.go.  A trailing integer argument 1 selects the model of the REPAIRED code
+   (fixes/C06-1-strict-amount-parse.diff), anything else the code as shipped.
+     c06 print ( v e ) [1]        -> ( ok x<text> ) ( ok x<minimal text> )   |  ( err panic ) ( err panic )
+     c06 pct_print ( v e ) [1]    -> ( ok x<text> )                           |  ( err panic )
+     c06 parse x<str> [1]         -> ( ok ( v e ) ) | ( null ) | ( err )      (UnmarshalText)
+     c06 parse_json x<raw> [1]    -> same                                     (UnmarshalJSON)
+     c06 pct_parse / pct_parse_json
+     c06 all x<str> x<json> [1]   -> the six readings above, the two matches, ( f ) (the Go side appends the
+                                     struct-field results inside ( f ... ))
+     c06 all_a / all_p x<str> x<json> [1] -> the three amount / percentage readings, ( f )
+     c06 matches x<str> / pct_matches x<str> -> 0 | 1                         (the published pattern) *)
 From Coq Require Import ZArith List String Bool.
-From Verif Require Import Base.Wire.
+From Verif Require Import Base.Wire Num.Amount Num.Codec.
 Import ListNotations.
+Open Scope Z_scope.
 
-Definition run_c06 (args : list V) : list V := [verr "not-implemented"].
+Definition c06_amt (v : V) : amount :=
+  match v with VL [VI x; VI e] => mkA x (Z.to_nat e) | _ => mkA 0 0 end.
+Definition c06_ok_text (s : bytes) : V := VL [VS (bs "ok"); VS s].
+Definition c06_panic : V := VL [VS (bs "err"); VS (bs "panic")].
+Definition c06_read (r : read) : V :=
+  match r with
+  | Rok a => VL [VS (bs "ok"); VL [VI (val a); VN (exp a)]]
+  | Rnull => VL [VS (bs "null")]
+  | Rerr => VL [VS (bs "err")]
+  end.
+Definition c06_opt (o : option amount) : read := match o with Some a => Rok a | None => Rerr end.
+
+Definition run_c06 (args : list V) : list V :=
+  match args with
+  | o :: rest =>
+    let op := opname o in
+    let a1 := nth 0 rest (VI 0) in
+    let fixed := vz (nth 1 rest (VI 0)) =? 1 in
+    let pa := if fixed then parse_amount_fixed else parse_amount in
+    let pr := if fixed then print_amount_fixed else print_amount in
+    let panics := if fixed then amount_string_fixed_panics else amount_string_panics in
+    if String.eqb op "print" then
+      let a := c06_amt a1 in
+      if panics a then [c06_panic; c06_panic]
+      else [c06_ok_text (pr a); c06_ok_text (minimal_of_text (pr a))]
+    else if String.eqb op "pct_print" then
+      let p := c06_amt a1 in
+      if panics (pct_amount p) then [c06_panic] else [c06_ok_text (print_pct_with pr p)]
+    else if String.eqb op "parse" then [c06_read (unmarshal_text pa (vs_ a1))]
+    else if String.eqb op "parse_json" then [c06_read (unmarshal_json pa (vs_ a1))]
+    else if String.eqb op "pct_parse" then [c06_read (unmarshal_text (parse_pct_with pa) (vs_ a1))]
+    else if String.eqb op "pct_parse_json" then [c06_read (unmarshal_json (parse_pct_with pa) (vs_ a1))]
+    else if String.eqb op "all" then
+      let s := vs_ a1 in
+      let q := b_quote :: s ++ [b_quote] in
+      let fixed := vz (nth 2 rest (VI 0)) =? 1 in
+      let pa := if fixed then parse_amount_fixed else parse_amount in
+      [c06_read (unmarshal_text pa s); c06_read (unmarshal_json pa s); c06_read (unmarshal_json pa q);
+       c06_read (unmarshal_text (parse_pct_with pa) s); c06_read (unmarshal_json (parse_pct_with pa) s);
+       c06_read (unmarshal_json (parse_pct_with pa) q);
+       VB (matches_amount_pattern s); VB (matches_pct_pattern s); VL [VS (bs "f")]]
+    else if String.eqb op "all_a" || String.eqb op "all_p" then
+      let s := vs_ a1 in
+      let q := b_quote :: s ++ [b_quote] in
+      let fixed := vz (nth 2 rest (VI 0)) =? 1 in
+      let pa := if fixed then parse_amount_fixed else parse_amount in
+      let rd := if String.eqb op "all_a" then pa else parse_pct_with pa in
+      [c06_read (unmarshal_text rd s); c06_read (unmarshal_json rd s); c06_read (unmarshal_json rd q);
+       VL [VS (bs "f")]]
+    else if String.eqb op "matches" then [VB (matches_amount_pattern (vs_ a1))]
+    else if String.eqb op "pct_matches" then [VB (matches_pct_pattern (vs_ a1))]
+    else [verr "unknown-c06-op"]
+  | [] => [verr "unknown-c06-op"]
+  end.
